@@ -94,13 +94,8 @@ func (t *ParsedTable) ToMarkdown() string {
 	}
 	result += "\n"
 
-	// Data rows (skip first if it was header)
-	startRow := 1
-	if !t.HasHeader && len(t.Rows) > 1 {
-		startRow = 0
-	}
-
-	for i := startRow; i < len(t.Rows); i++ {
+	// Data rows (the first row was emitted above the separator, with or without header cells)
+	for i := 1; i < len(t.Rows); i++ {
 		result += "|"
 		for _, cell := range t.Rows[i] {
 			result += " " + escapeMarkdown(cell.Text) + " |"
